@@ -270,6 +270,7 @@ func (o *Overlay) checkPendingMessages(t *Tree) {
 				continue
 			}
 		}
+		verifAt("overlay.flushDone", o, t)
 	}()
 }
 
